@@ -79,9 +79,8 @@ def cxxio_pass(prop, tier, seed):
     os.makedirs(root, exist_ok=True)
 
     def work(w):
-        p = subprocess.run([binp, vchild, os.path.join(root, "w%d" % w), str(w), str(nw), tier, str(seed)],
-                           stdout=subprocess.PIPE, stderr=subprocess.PIPE, env=env, text=True, errors="replace")
-        return p.returncode, p.stdout, p.stderr
+        rc_, out_, err_ = core.run_timed([binp, vchild, os.path.join(root, "w%d" % w), str(w), str(nw), tier, str(seed)], env, 900 if tier == "quick" else 3600)
+        return rc_, out_, err_
     with ThreadPoolExecutor(nw) as ex:
         outs = list(ex.map(work, range(nw)))
     shutil.rmtree(root, ignore_errors=True)
@@ -89,7 +88,9 @@ def cxxio_pass(prop, tier, seed):
     obs = {n: 0 for n in names}
     viols = []
     for rc, out, err in outs:
-        if rc not in (0, 1):
+        if rc in (124, 3):
+            obs["harness_timeouts"] = obs.get("harness_timeouts", 0) + 1
+        elif rc not in (0, 1):
             kind = "asan" if "AddressSanitizer" in err else "ubsan" if "runtime error" in err else "crash"
             viols.append((prop, "%s/cxxio/%s" % (prop, kind), "C++ drain harness died rc=%d: %s" % (rc, err[-500:]), {"seed": seed, "module": "cxxio"}, [err[-2000:]]))
         for line in out.splitlines():
@@ -119,9 +120,8 @@ def stress_pass(prop, tier, seed):
     os.makedirs(root, exist_ok=True)
 
     def work(i):
-        p = subprocess.run([binp, vchild, os.path.join(root, "p%d" % i), str(reps // nproc), str(seed * 977 + i), "8"],
-                           stdout=subprocess.PIPE, stderr=subprocess.PIPE, env=env, text=True, errors="replace")
-        return p.returncode, p.stdout, p.stderr
+        rc_, out_, err_ = core.run_timed([binp, vchild, os.path.join(root, "p%d" % i), str(reps // nproc), str(seed * 977 + i), "8"], env, 900 if tier == "quick" else 3600)
+        return rc_, out_, err_
     with ThreadPoolExecutor(nproc) as ex:
         outs = list(ex.map(work, range(nproc)))
     shutil.rmtree(root, ignore_errors=True)
@@ -129,12 +129,14 @@ def stress_pass(prop, tier, seed):
     obs = {"stress_children": 0, "stress_bytes_verified": 0, "stress_streams_complete": 0}
     viols = []
     for rc, out, err in outs:
-        if rc not in (0, 1, 3):
+        if rc == 124:
+            obs["harness_timeouts"] = obs.get("harness_timeouts", 0) + 1
+        elif rc not in (0, 1, 3):
             kind = "asan" if "AddressSanitizer" in err else "ubsan" if "runtime error" in err else "crash"
             viols.append((prop, "%s/stress/%s" % (prop, kind), "stress harness died rc=%d: %s" % (rc, err[-500:]), {"seed": seed, "module": "stress"}, [err[-2000:]]))
         for line in out.splitlines():
             f = line.split("\t")
-            if f[0] == "V" and len(f) >= 4 and f[1] in ("output-length", "output-crosstalk", "read-failed", "write-failed", "stdin-pipe-leaked-to-sibling"):
+            if f[0] == "V" and len(f) >= 4 and f[1] in ("output-length", "output-crosstalk", "read-failed", "write-failed", "drain-failed", "stdin-pipe-leaked-to-sibling"):
                 viols.append((prop, "%s/stress/%s" % (prop, f[1]), "%s [%s]" % (f[3], f[2]), {"seed": seed, "module": "stress", "where": f[2]}, [line[:400]]))
             elif f[0] == "S":
                 vals = [int(x) for x in f[1:]]
